@@ -1,3 +1,17 @@
-(* C14 correspondence: reload histories on the real Runtime vs Run/Loader.v. *)
-From V Require Export Corr.LoaderRun.
-Definition mismatches := lmismatches.
+(* C14 correspondence.
+   C14L: reload histories through CompileAndRun on the real Runtime vs Run/Loader.v.
+   C14D: reload histories through LoadAllPrograms on a real program directory
+         (edits, failed reloads, lines afterwards) vs Run/DirScan.v. *)
+From V Require Export Corr.LoaderRun Corr.Run_C26.
+Local Open Scope N_scope.
+
+Inductive c14case :=
+| C14L (c : lcase)
+| C14D (c : dcase).
+
+Definition c14_id (c : c14case) : N :=
+  match c with C14L l => lcase_id l | C14D d => dcase_id d end.
+Definition c14_ok (c : c14case) : bool :=
+  match c with C14L l => lcase_ok l | C14D d => dcase_ok d end.
+
+Definition mismatches (l : list c14case) : list N := failing c14_ok c14_id l.
